@@ -222,11 +222,13 @@ func (c *xdsClient) sender(as ADSStream) {
 	// 2. construct a new stream when getting errors (EOF?)
 	currStream := as
 	for {
+		verifSender(c, 0)
 		select {
 		case <-c.closeCh:
 			klog.Infof("KITEX: [XDS] client, stop ads client sender")
 			return
 		case s := <-c.streamCh:
+			verifSender(c, 1)
 			// new stream, send request with non version and nonce
 			currStream = s
 			if err := c.reqWhenReconnect(currStream); err != nil {
@@ -234,6 +236,7 @@ func (c *xdsClient) sender(as ADSStream) {
 				continue
 			}
 		case req := <-c.reqCh:
+			verifSender(c, 2)
 			if currStream != nil {
 				err := currStream.Send(req)
 				if err != nil {
